@@ -8,6 +8,7 @@ import (
 	"fmt"
 	"io"
 	"math/big"
+	"os"
 	"reflect"
 	"runtime"
 	"strings"
@@ -278,6 +279,10 @@ func safeDecode(b []byte, v interface{}) (err error, panicked interface{}) {
 }
 
 func main() {
+	if k := os.Getenv("C08_CHILD"); k != "" {
+		childMain(k)
+		return
+	}
 	a := hx.ParseArgs()
 	rng := hx.NewRng(a.Seed)
 	res := hx.NewResult("inputs: (1) implementation encodings of random item trees (depth<=4, string lengths straddling 1/55/56/255/256/65535), " +
@@ -285,6 +290,10 @@ func main() {
 		"non-trivial = distinct input whose decode outcome is not 'rejected on the first byte' and not empty input")
 	cs := hx.NewCases(a.Out, "From V.C08 Require Import Model Harness.\nFrom V.Base Require Import Hex.", "string * dobs * sobs * cobs", "check", 400)
 	ts := hx.NewCasesNamed(a.Out, "typed", "From V.C08 Require Import Model Typed Harness.\nFrom V.Base Require Import Hex.", "ty * string * option value", "check_typed", 1500)
+
+	// purity: type-cache first-use orders and failure histories, in fresh child processes
+	fresh := pureTier(a, rng.Fork(), res)
+	_ = fresh
 
 	var inputs [][]byte
 	add := func(b []byte) { inputs = append(inputs, b) }
